@@ -316,10 +316,13 @@ func (cd *ConfigManager) Commit(id conf.SessionID) error {
 			// frr-reload applies its diff line by line: a failed reload can leave
 			// the daemon on part of the candidate. Put it back on the running
 			// configuration before the handlers are rolled back.
-			if rerr := cd.reloadFRR(cd.runningConfig); rerr != nil {
-				cd.logger.Error("Failed to restore FRR configuration after failed reload", "error", rerr)
-			}
+			rerr := cd.reloadFRR(cd.runningConfig)
 			cd.rollbackChanges(appliedChanges)
+			if rerr != nil {
+				// The daemon may still run (part of) the candidate: the caller has to know.
+				cd.logger.Error("Failed to restore FRR configuration after failed reload", "error", rerr)
+				return fmt.Errorf("FRR reload failed: %w (restoring the running configuration failed too: %v)", err, rerr)
+			}
 			return fmt.Errorf("FRR reload failed: %w", err)
 		}
 		cd.logger.Info("FRR configuration reloaded successfully")
@@ -332,12 +335,15 @@ func (cd *ConfigManager) Commit(id conf.SessionID) error {
 	// the handlers rolled back and the routing daemon put back on the running config.
 	newStartup := cd.deepCopyConfig(sess.config)
 	if err := SaveYAML(cd.startupConfigPath, cd.scrubPersistedConfig(newStartup)); err != nil {
+		var rerr error
 		if frrReloadNeeded {
-			if rerr := cd.reloadFRR(cd.runningConfig); rerr != nil {
-				cd.logger.Error("Failed to restore FRR configuration after aborted commit", "error", rerr)
-			}
+			rerr = cd.reloadFRR(cd.runningConfig)
 		}
 		cd.rollbackChanges(appliedChanges)
+		if rerr != nil {
+			cd.logger.Error("Failed to restore FRR configuration after aborted commit", "error", rerr)
+			return fmt.Errorf("failed to save startup config: %w (restoring the running configuration failed too: %v)", err, rerr)
+		}
 		return fmt.Errorf("failed to save startup config: %w", err)
 	}
 
